@@ -38,7 +38,7 @@ TLine(k) ==
                                ELSE (Step(k, e.op, e.ret) \/ EndStep(k, e.op, e.ret))
   /\ lc' = [lc EXCEPT ![k] = @ + 1] /\ UNCHANGED <<t, tc>>
 TSilent ==
-  /\ \/ \E k \in PTasks : AtEnd(k) /\ (RetUnseen(k) \/ StepUnseen(k) \/ FilterKill(k))
+  /\ \/ \E k \in PTasks : AtEnd(k) /\ (RetUnseen(k) \/ StepUnseen(k) \/ ExecUnseen(k) \/ FilterKill(k))
      \/ \E j \in PTasks : Birth(j)
      \/ FilterKillSeen
   /\ UNCHANGED <<t, lc, tc>>
